@@ -1,0 +1,167 @@
+//go:build verif
+
+// Contracts for the verification machinery in /verif (comment-only; no declarations).
+// C13: Identify attributes what it learns only to the authenticated remote peer of the connection, within bounds.
+//
+// Guard-style contracts: the peerstore, the network and the crypto are abstract (interface calls are events with
+// uninterpreted results); what is proved is which calls are made, with which arguments, under which checks.
+// Conventions used below:
+//   - arg0 of a method call is its receiver, so for ids.Host.Peerstore().AddAddrs(p, addrs, ttl): arg1 = p, arg2 = addrs, arg3 = ttl.
+//   - `callsite f#* ...` binds every call site named f in the function (also ones a later edit may add).
+//   - events of calls made inside a loop are only mentioned inside that iteration (the generator does not carry them
+//     over the loop cut); the number of iterations of the finished TTL-downgrade loop is stated through its index (idx1 == 2).
+//   - core/record and core/peer contracts (ConsumeEnvelope, (*Envelope).Record, IDFromPublicKey pure) are C08's.
+
+package identify
+
+// A non-nil envelope comes only from a successful ConsumeEnvelope under the peer-record domain. consumeMessage ignores
+// the error and tests the envelope for nil, so this relies on ConsumeEnvelope returning a nil envelope on error (C08).
+//@ func signedPeerRecordFromMessage
+//@ prop C13
+//@ ensures result0 != nil ==> called(ConsumeEnvelope, 0) && ret(ConsumeEnvelope, 0, 2) == nil && result0 == ret(ConsumeEnvelope, 0, 0)
+//@ ensures result0 != nil ==> arg(ConsumeEnvelope, 0, 0) == msg.SignedPeerRecord && arg(ConsumeEnvelope, 0, 1) == peer.PeerRecordEnvelopeDomain
+//@ ensures result0 != nil ==> result1 == nil
+//@ modifies nothing
+
+// The record is accepted only if the envelope's key hashes to p, the payload is a peer record for p; exactly its
+// addresses are returned. (`called(Record, 0)` also keeps the clause naming the local `rec` out of callers' view.)
+//@ func (ids *idService) consumeSignedPeerRecord
+//@ prop C13
+//@ ensures result1 == nil ==> called(IDFromPublicKey, 0) && arg(IDFromPublicKey, 0, 0) == signedPeerRecord.PublicKey &&
+//@         ret(IDFromPublicKey, 0, 1) == nil && ret(IDFromPublicKey, 0, 0) == p
+//@ ensures result1 == nil ==> called(Record, 0) && arg(Record, 0, 0) == signedPeerRecord && ret(Record, 0, 1) == nil &&
+//@         typeis(ret(Record, 0, 0), *peer.PeerRecord) && rec == ret(Record, 0, 0) && rec.PeerID == p && result0 == rec.Addrs
+//@ ensures result1 != nil ==> len(result0) == 0
+//@ ensures result1 == nil ==> nth(peer.IDFromPublicKey(signedPeerRecord.PublicKey), 1) == nil && nth(peer.IDFromPublicKey(signedPeerRecord.PublicKey), 0) == p
+//@ ensures signedPeerRecord.PublicKey == old(signedPeerRecord.PublicKey)
+//@ noframe
+
+// A key is offered to the key book at most once, under the connection's remote peer, and (site #1) only if it hashes
+// to that peer; site #0 is the code's no-remote-peer-ID case (empty ID; pstoremem's key book refuses it, see pstoremem).
+//@ func (ids *idService) consumeReceivedPubKey
+//@ prop C13
+//@ callsite AddPubKey#0 requires arg1 == c.RemotePeer() && arg1 == ""
+//@ callsite AddPubKey#1 requires arg1 == c.RemotePeer() && arg2 == ret(UnmarshalPublicKey, 0, 0) && ret(UnmarshalPublicKey, 0, 1) == nil
+//@ callsite AddPubKey#1 requires arg(IDFromPublicKey, 0, 0) == arg2 && ret(IDFromPublicKey, 0, 1) == nil && ret(IDFromPublicKey, 0, 0) == c.RemotePeer()
+//@ ensures ncalls(AddPubKey, 0) + ncalls(AddPubKey, 1) <= 1
+//@ modifies nothing
+
+//@ func (ids *idService) consumeMessage
+//@ prop C13
+//@ loop 0 invariant len(lmaddrs) <= idx0
+//@ loop 1 invariant true
+//@ callsite SetProtocols#* requires arg1 == c.RemotePeer()
+//@ callsite UpdateAddrs#* requires arg1 == c.RemotePeer()
+//@ callsite AddAddrs#* requires arg1 == c.RemotePeer()
+//@ callsite Put#* requires arg1 == c.RemotePeer()
+//@ callsite SetProtocols#0 requires len(arg2) <= maxPeerProtocols
+//@ callsite UpdateAddrs#0 requires arg3 == peerstore.TempAddrTTL &&
+//@         (idx1 == 0 ==> arg2 == peerstore.RecentlyConnectedAddrTTL) && (idx1 == 1 ==> arg2 == peerstore.ConnectedAddrTTL)
+//@ callsite consumeSignedPeerRecord#0 requires arg1 == c.RemotePeer() && arg2 != nil && arg2 == ret(signedPeerRecordFromMessage, 0, 0)
+//@ callsite filterAddrs#0 requires arg1 == c.RemoteMultiaddr()
+//@ callsite filterAddrs#0 requires ret(signedPeerRecordFromMessage, 0, 0) == nil ==> arg0 == lmaddrs
+//@ callsite filterAddrs#0 requires ret(signedPeerRecordFromMessage, 0, 0) != nil ==> called(consumeSignedPeerRecord, 0) &&
+//@         (ret(consumeSignedPeerRecord, 0, 1) == nil ==> arg0 == ret(consumeSignedPeerRecord, 0, 0)) &&
+//@         (ret(consumeSignedPeerRecord, 0, 1) != nil ==> len(arg0) == 0)
+//@ callsite filterAddrs#0 requires ret(signedPeerRecordFromMessage, 0, 0) != nil && ret(consumeSignedPeerRecord, 0, 1) == nil ==>
+//@         nth(peer.IDFromPublicKey(ret(signedPeerRecordFromMessage, 0, 0).PublicKey), 1) == nil &&
+//@         nth(peer.IDFromPublicKey(ret(signedPeerRecordFromMessage, 0, 0).PublicKey), 0) == c.RemotePeer()
+//@ callsite AddAddrs#0 requires len(arg2) <= connectedPeerMaxAddrs
+//@ callsite AddAddrs#0 requires called(filterAddrs, 0) &&
+//@         (len(ret(filterAddrs, 0, 0)) <= connectedPeerMaxAddrs ==> arg2 == ret(filterAddrs, 0, 0)) &&
+//@         (len(ret(filterAddrs, 0, 0)) > connectedPeerMaxAddrs ==> arg2 == ret(filterAddrs, 0, 0)[:connectedPeerMaxAddrs])
+//@ callsite AddAddrs#0 requires arg(Connectedness, 0, 1) == c.RemotePeer() &&
+//@         ((ret(Connectedness, 0, 0) == network.Connected || ret(Connectedness, 0, 0) == network.Limited) ==> arg3 == peerstore.ConnectedAddrTTL) &&
+//@         (!(ret(Connectedness, 0, 0) == network.Connected || ret(Connectedness, 0, 0) == network.Limited) ==> arg3 == peerstore.RecentlyConnectedAddrTTL)
+//@ callsite AddAddrs#0 requires !manet.IsIPLoopback(c.RemoteMultiaddr()) && manet.IsPrivateAddr(c.RemoteMultiaddr()) ==>
+//@         forall j int :: 0 <= j && j < len(arg2) ==> !manet.IsIPLoopback(arg2[j])
+//@ callsite AddAddrs#0 requires !manet.IsIPLoopback(c.RemoteMultiaddr()) && !manet.IsPrivateAddr(c.RemoteMultiaddr()) && manet.IsPublicAddr(c.RemoteMultiaddr()) ==>
+//@         forall j int :: 0 <= j && j < len(arg2) ==> manet.IsPublicAddr(arg2[j])
+//@ callsite AddAddrs#0 requires idx1 == 2 && !called(UpdateAddrs, 1)
+//@ callsite UpdateAddrs#1 requires arg2 == peerstore.TempAddrTTL && arg3 == 0 && called(AddAddrs, 0)
+//@ callsite consumeReceivedPubKey#0 requires arg1 == c && arg2 == mes.PublicKey
+//@ callsite Emit#0 requires event.EvtPeerProtocolsUpdated(arg1).Peer == c.RemotePeer() && isPush
+//@ callsite Emit#1 requires event.EvtPeerIdentificationCompleted(arg1).Peer == c.RemotePeer() && event.EvtPeerIdentificationCompleted(arg1).Conn == c
+//@ ensures called(UpdateAddrs, 1) && ncalls(AddAddrs, 0) == 1 && ncalls(SetProtocols, 0) == 1
+//@ noframe
+
+//@ func filterAddrs
+//@ prop C13
+//@ ensures manet.IsIPLoopback(remote) ==> result == addrs
+//@ ensures !manet.IsIPLoopback(remote) && manet.IsPrivateAddr(remote) ==> called(FilterAddrs, 0) && arg(FilterAddrs, 0, 0) == addrs && result == ret(FilterAddrs, 0, 0)
+//@ ensures !manet.IsIPLoopback(remote) && !manet.IsPrivateAddr(remote) && manet.IsPublicAddr(remote) ==>
+//@         called(FilterAddrs, 1) && arg(FilterAddrs, 1, 0) == addrs && result == ret(FilterAddrs, 1, 0)
+//@ ensures !manet.IsIPLoopback(remote) && !manet.IsPrivateAddr(remote) && !manet.IsPublicAddr(remote) ==> result == addrs
+//@ ensures len(result) <= len(addrs)
+//@ ensures !manet.IsIPLoopback(remote) && manet.IsPrivateAddr(remote) ==>
+//@         forall j int :: 0 <= j && j < len(result) ==> !manet.IsIPLoopback(result[j])
+//@ ensures !manet.IsIPLoopback(remote) && !manet.IsPrivateAddr(remote) && manet.IsPublicAddr(remote) ==>
+//@         forall j int :: 0 <= j && j < len(result) ==> manet.IsPublicAddr(result[j])
+//@ ensures forall j int :: 0 <= j && j < len(result) ==> exists i int :: 0 <= i && i < len(addrs) && result[j] == addrs[i]
+//@ closure 0
+//@ ensures result == !manet.IsIPLoopback(a)
+//@ modifies nothing
+
+//@ func readAllIDMessages
+//@ prop C13
+//@ loop 0 invariant 0 <= idx0 && idx0 <= maxMessages
+//@ callsite ReadMsg#0 requires idx0 < maxMessages
+//@ ensures result == nil ==> called(ReadMsg, 0) && ret(ReadMsg, 0, 0) == io.EOF
+//@ noframe
+
+//@ func (ids *idService) handleIdentifyResponse
+//@ prop C13
+//@ callsite consumeMessage#0 requires arg2 == s.Conn() && arg3 == isPush
+//@ callsite consumeMessage#0 requires called(readAllIDMessages, 0) && ret(readAllIDMessages, 0, 0) == nil && arg(readAllIDMessages, 0, 1) == arg1
+//@ callsite consumeMessage#0 requires called(ReserveMemory, 0) && ret(ReserveMemory, 0, 0) == nil && arg(ReserveMemory, 0, 1) == signedIDSize
+//@ callsite SupportsProtocols#0 requires arg1 == s.Conn().RemotePeer()
+//@ ensures ncalls(consumeMessage, 0) <= 1
+//@ noframe
+
+//@ func (nn *netNotifiee) Disconnected
+//@ prop C13
+//@ loop 0 invariant len(addrs) == n && forall k int :: 0 <= k && k < idx0 && addrs[k].Equal(c.RemoteMultiaddr()) ==> addrs[0].Equal(c.RemoteMultiaddr())
+//@ callsite UpdateAddrs#* requires arg1 == c.RemotePeer()
+//@ callsite AddAddrs#* requires arg1 == c.RemotePeer()
+//@ callsite UpdateAddrs#0 requires arg2 == peerstore.ConnectedAddrTTL && arg3 == peerstore.TempAddrTTL
+//@ callsite UpdateAddrs#0 requires arg(Connectedness, 0, 1) == c.RemotePeer() && ret(Connectedness, 0, 0) != network.Connected && ret(Connectedness, 0, 0) != network.Limited
+//@ callsite AddAddrs#0 requires len(arg2) <= recentlyConnectedPeerMaxAddrs && arg3 == peerstore.RecentlyConnectedAddrTTL
+//@ callsite AddAddrs#0 requires called(UpdateAddrs, 0) && arg(Addrs, 0, 1) == c.RemotePeer() && arg2 == ret(Addrs, 0, 0)[:len(arg2)]
+//@ callsite AddAddrs#0 requires len(arg2) > 0 ==> forall k int :: 0 <= k && k < len(addrs) && addrs[k].Equal(c.RemoteMultiaddr()) ==>
+//@         (exists m int :: 0 <= m && m < len(arg2) && arg2[m].Equal(c.RemoteMultiaddr()))
+//@ callsite UpdateAddrs#1 requires arg2 == peerstore.TempAddrTTL && arg3 == 0 && called(AddAddrs, 0)
+//@ ensures (ret(Connectedness, 0, 0) == network.Connected || ret(Connectedness, 0, 0) == network.Limited) ==>
+//@         !called(UpdateAddrs, 0) && !called(AddAddrs, 0) && !called(UpdateAddrs, 1)
+//@ ensures !(ret(Connectedness, 0, 0) == network.Connected || ret(Connectedness, 0, 0) == network.Limited) ==>
+//@         called(UpdateAddrs, 0) && called(AddAddrs, 0) && called(UpdateAddrs, 1)
+//@ ensures !has(ids.conns, c)
+//@ noframe
+
+// identify-wait: what the sequential semantics can say (the eventual close by the spawned goroutine is not decided:
+// deferred builtin calls are not executed by the generator, and liveness is out of reach)
+//@ func (ids *idService) IdentifyWait
+//@ prop C13
+//@ ensures !old(has(ids.conns, c)) && c.IsClosed() ==> closed(ch) && !has(ids.conns, c)
+//@ ensures old(has(ids.conns, c)) || !c.IsClosed() ==> result != nil && has(ids.conns, c)
+//@ ensures old(has(ids.conns, c)) ==> result == ids.conns[c].IdentifyWaitChan
+//@ ensures old(has(ids.conns, c)) && old(ids.conns[c].IdentifyWaitChan) != nil ==> result == old(ids.conns[c].IdentifyWaitChan)
+//@ noframe
+
+//@ func newStreamAndNegotiate
+//@ prop C13
+//@ ensures result1 == nil ==> called(NewStream, 0) && arg(NewStream, 0, 0) == c && ret(NewStream, 0, 1) == nil && result0 == ret(NewStream, 0, 0)
+//@ ensures result1 == nil ==> called(SelectProtoOrFail, 0) && ret(SelectProtoOrFail, 0, 0) == nil && arg(SelectProtoOrFail, 0, 0) == proto
+//@ ensures result1 != nil ==> result0 == nil
+//@ noframe
+
+//@ func (ids *idService) identifyConn
+//@ prop C13
+//@ callsite handleIdentifyResponse#0 requires called(newStreamAndNegotiate, 0) && arg(newStreamAndNegotiate, 0, 1) == c &&
+//@         ret(newStreamAndNegotiate, 0, 1) == nil && arg1 == ret(newStreamAndNegotiate, 0, 0) && !arg2
+//@ noframe
+
+//@ func (nn *netNotifiee) Connected
+//@ prop C13
+//@ callsite IdentifyWait#0 requires arg1 == c && has(ids.conns, c)
+//@ ensures called(IdentifyWait, 0) && has(ids.conns, c)
+//@ noframe
